@@ -460,7 +460,9 @@ Proof.
     constructor; cbn; auto. intros _ x Hx. apply in_app_or in Hx. destruct Hx as [Hx|[Hx|[]]]; auto.
     right. subst x. exists d, s0, data. auto.
   - destruct (negb (is_dlc_pdu p)) eqn:ND.
-    + destruct (sock_close s) as [s'|] eqn:SC; [|apply goods_refl; auto].
+    + destruct (negb (c_enq_blocks c) && sstate_eqb (s_state s) StEstablished) eqn:NB.
+      { cbn. eapply goods_put; eauto. ev_tac. }
+      destruct (sock_close s) as [s'|] eqn:SC; [|apply goods_refl; auto].
       destruct (sock_close_some _ _ SC) as [E St].
       set (s2 := set_pend (set_sendq s' _) PdNone).
       assert (E2 : evolves s s2).
@@ -532,7 +534,7 @@ Qed.
 
 (* ---------------------------------------------------------------- two controllers *)
 Definition wf2 (st : sys) : Prop := wf (fst st) /\ wf (snd st).
-Definition exec (ops : list op) : sys := fold_left (fun st o => fst (step st o)) ops init_sys.
+Definition exec (b : bool) (ops : list op) : sys := fold_left (fun st o => fst (step st o)) ops (init_sys b).
 
 Lemma get_set_side_same st sd c : get_side (set_side st sd c) sd = c.
 Proof. destruct sd; reflexivity. Qed.
@@ -555,13 +557,13 @@ Proof.
     apply wf2_set; auto. change c2 with (fst (c2, r)). rewrite <- D. apply dispatch_good. apply wf2_side; auto.
 Qed.
 
-Lemma wf2_init : wf2 init_sys.
+Lemma wf2_init b : wf2 (init_sys b).
 Proof. split; apply wf_init. Qed.
 
-Lemma exec_app ops o : exec (ops ++ [o]) = fst (step (exec ops) o).
+Lemma exec_app b ops o : exec b (ops ++ [o]) = fst (step (exec b ops) o).
 Proof. unfold exec. rewrite fold_left_app. reflexivity. Qed.
 
-Theorem exec_wf2 ops : wf2 (exec ops).
+Theorem exec_wf2 b ops : wf2 (exec b ops).
 Proof.
   induction ops as [|o ops IH] using rev_ind; [apply wf2_init|]. rewrite exec_app. apply step_wf2; auto.
 Qed.
@@ -577,5 +579,5 @@ Proof.
       (destruct (run st' t) as [st'' rs] eqn:Rn; destruct (IH st') as (pre & E); rewrite Rn in E; cbn in E;
        exists (o :: pre); cbn; rewrite S; exact E).
 Qed.
-Corollary final_wf2 ops : wf2 (final ops).
-Proof. unfold final. destruct (run_is_exec init_sys ops) as (pre & ->). apply (exec_wf2 pre). Qed.
+Corollary final_wf2 b ops : wf2 (final b ops).
+Proof. unfold final. destruct (run_is_exec (init_sys b) ops) as (pre & ->). apply (exec_wf2 b pre). Qed.
